@@ -25,7 +25,7 @@ RULE = ('cases = reply body from an alphabet around the accepted form (True, "Tr
         '(form / JSON) x http / https x the check at depth 0-5 under and/or/not/rule: x policy name x URL placeholders x '
         'targets with nested values, secret-looking keys (with the debug logging of the library on or off) and opaque objects (top level; below the top level only the target-left-unmodified clause is judged). in the random stratum the content-type option may be changed on the living enforcer before a second request; B = the full body x status x content-type x scheme '
         'product at depth 0; R = random combinations. Non-trivial = the body is not exactly True / "True" (must deny) or a '
-        'fault is injected; distinct = distinct case.')
+        'fault is injected; distinct = distinct case. Stratum `overlap`: two requests reach two remote checks of one enforcer at the same time (second one runs at sampled line boundaries of the first, deterministic scheduler); the stub server answers True only to a self-consistent request, so anything leaking from one request into the other changes a decision.')
 ASSUMPTIONS = ['bodies with unbalanced or repeated surrounding quotes ("True, True", ""True"") are driven and recorded but '
                'left unconstrained: "ignoring surrounding double quotes" can be read either way',
                'running as root, "file exists but unreadable" cannot be produced (os.access always succeeds): not simulated',
@@ -35,7 +35,7 @@ LEVEL_TEXT = ('The body/status/content-type/scheme product and every listed faul
               'about what happens for each reply and each transport failure.')
 LEVEL_NOTE = 'trusted: requests_mock as the transport; the request decoder in the harness'
 PLAN = {'quick': dict(shards=4, wall=70), 'thorough': dict(shards=16, wall=400)}
-MIN = {'evaluations': 800, 'requests_recorded': 500, 'deny_bodies': 300, 'allow_bodies': 50, 'faults_injected': 100,
+MIN = {'overlapping_evaluations': 200, 'evaluations': 800, 'requests_recorded': 500, 'deny_bodies': 300, 'allow_bodies': 50, 'faults_injected': 100,
        'tls_file_faults': 20, 'content_type_changes_on_living_enforcer': 100, 'requests_under_debug_logging': 200, 'nested_opaque_targets': 50}
 ANCHORS = ['oslo_policy._external:HttpCheck.__call__', 'oslo_policy._external:HttpsCheck.__call__',
            'oslo_policy._external:HttpCheck._construct_payload', 'oslo_policy.policy:Enforcer.enforce']
@@ -303,6 +303,96 @@ def check_case(ctx, case):
             shutil.rmtree(tmpdir, ignore_errors=True)
 
 
+OVERLAPS = {'quick': 10, 'thorough': 150}
+
+
+def check_overlap(ctx, case):
+    """Two requests reach two remote checks of one enforcer at the same time.  The stub server answers True only when the
+    request is self-consistent (URL filled from the same target it carries, the policy name that is being enforced for that
+    URL, the credentials of that request) and its path says allow - so anything of one request that leaks into the other
+    shows up as a changed decision or a recorded inconsistency."""
+    from oslo_policy import policy
+    from pv.mon import overlap
+    conf = env.fresh_conf(remote_content_type=case['ctype'])
+    enf = policy.Enforcer(conf, use_conf=False)
+    rules = {}
+    for tag in 'ab':
+        sub = case[tag]
+        text = '%s://srv/%s/%%(name)s/%s' % (sub['scheme'], tag, 'yes' if sub['allow'] else 'no')
+        if sub['wrap'] == 'alias':
+            rules['alias_' + tag] = text
+            text = 'rule:alias_' + tag
+        elif sub['wrap'] == 'not-not':
+            text = 'not not ' + text
+        elif sub['wrap'] == 'and':
+            text = '(@ and %s)' % text
+        rules['pol:' + tag] = text
+    enf.set_rules(policy.Rules.from_dict(rules))
+    problems = []
+
+    def server(request, context):
+        try:
+            body = request.body if isinstance(request.body, str) else request.body.decode()
+            if case['ctype'] == 'application/json':
+                sent = json.loads(body)
+            else:
+                sent = {k: json.loads(v[0]) for k, v in urllib.parse.parse_qs(body, keep_blank_values=True).items()}
+            parts = urllib.parse.urlparse(request.url).path.strip('/').split('/')
+            tag, name, verdict = parts[0], urllib.parse.unquote(parts[1]), parts[2]
+            want = case[tag]
+            bad = []
+            if sent.get('rule') != 'pol:' + tag:
+                bad.append(['rule', sent.get('rule'), 'pol:' + tag])
+            if sent.get('target') != want['target'] or name != want['target']['name']:
+                bad.append(['target', sent.get('target'), name, want['target']])
+            if sent.get('credentials') != want['creds']:
+                bad.append(['credentials', sent.get('credentials'), want['creds']])
+            if bad:
+                problems.append(bad)
+                return 'False'
+            return 'True' if verdict == 'yes' else 'False'
+        except Exception as e:
+            problems.append(['undecodable-request', type(e).__name__, str(e)[:80]])
+            return 'False'
+
+    def mk(tag):
+        def make():
+            sub = case[tag]
+            t, c = copy.deepcopy(sub['target']), copy.deepcopy(sub['creds'])
+            def run_():
+                try:
+                    return ['returned', bool(enf.enforce('pol:' + tag, t, c))]
+                except Exception as e:
+                    return ['raised', type(e).__name__, str(e)[:80]]
+            return run_
+        return make
+    ctx.case(['overlap', case['a'], case['b'], case['ctype']], True, 'overlap')
+    want = [['returned', case['a']['allow']], ['returned', case['b']['allow']]]
+    detail = {'rules': rules, 'request_a': case['a'], 'request_b': case['b'], 'content_type': case['ctype'], 'expected': want}
+    with requests_mock.Mocker() as m:
+        m.post(requests_mock.ANY, text=server)
+        ok = overlap.pair(ctx, mk('a'), mk('b'), case, detail, ctx.sub_rnd('Ob', case['rseed']))
+        n = len(m.request_history)
+        if ok:
+            got = [mk('a')()(), mk('b')()()]
+            if got != want:
+                ctx.violation('True-body-denies' if [g[1] for g in got if g[0] == 'returned'] != [w[1] for w in want] and not problems
+                              else 'request-payload-wrong', case, dict(detail, observed=got, inconsistencies=problems[:2]))
+                return
+    ctx.count('requests_recorded', n)
+    if problems:
+        ctx.violation('request-payload-wrong', case, dict(detail, inconsistencies=problems[:2]))
+
+
+def gen_overlap(ctx, i):
+    r = ctx.sub_rnd('O', ctx.tier, ctx.shard, i)
+    def sub(tag):
+        return dict(scheme=r.choice(['http', 'https']), allow=r.random() < 0.6, wrap=r.choice(['none', 'alias', 'not-not', 'and']),
+                    target={'name': tag + r.choice(['1', 'x y', 'é', 'n-1']), 'id': r.randint(1, 9), 'nested': {'k': [tag, {'z': None}]}},
+                    creds={'roles': [tag + 'role'], 'user_id': 'user-' + tag, 'project_id': 'p' + tag})
+    return dict(overlap=True, a=sub('a'), b=sub('b'), ctype=r.choice(CTYPES), rseed='%s.%d.%d' % (ctx.tier, ctx.shard, i))
+
+
 def base_case(**kw):
     c = dict(s='B', body='True', status=200, fault='none', ctype=CTYPES[0], scheme='http', wraps=[], name='svc:act',
              path='/%(name)s/check', roles=['a'], opaque=True, tls=False)
@@ -351,7 +441,19 @@ def run(ctx):
         if i % 150 == 0:
             ctx.sample(case, 'R')
     ctx.stratum('R', exhaustive=False)
+    # two overlapping requests, last (the line-level scheduler slows everything that runs after it is installed)
+    from pv.mon import sched
+    ctx.stratum('overlap', exhaustive=False)
+    try:
+        for i in range(OVERLAPS[ctx.tier]):
+            if ctx.expired():
+                break
+            check_overlap(ctx, gen_overlap(ctx, i))
+    finally:
+        sched.uninstall()
 
 
 def replay(ctx, case):
+    if case.get('overlap'):
+        return check_overlap(ctx, case)
     check_case(ctx, case)
